@@ -58,7 +58,7 @@ CLAIMED = {
          "Every rejected text of the families: each error's line exists and is quoted exactly, position/length stay within the line, ascending order, first error on the first line where the reference grammar has no continuation, identical errors from the parallel parser; the terminal report and the JSON report are parsed back and must show the same numbers.",
          "Trusted: specmodel.Parse (first offending line), independent line splitter. Texts with don't-care zones or Zs-only lines are exempt from the first-line clause only.",
          "DESIGN.md §4 C10"),
- "C14": ("exhaustive enumeration of ALL summaries of <=6/7 symbols over a 13-symbol alphabet in every summary position against a hand-written tag scanner; totals family under all map orders within a deviation bound",
+ "C14": ("exhaustive enumeration of ALL summaries of <=6/7 symbols over a 14-symbol alphabet in every summary position against a hand-written tag scanner; totals family under all map orders within a deviation bound",
          "Every string over the alphabet is scanned by klog (summary constructors and real parser) and by the reference scanner: tag list in canonical spelling and 22 match queries. Totals: every combination of 8 tag placements at record level and on 3 entries, through service.AggregateTotalsByTags, `klog tags -v -c` and `klog json`, under the canonical and (for a fixed stride) every non-canonical map iteration order within the bound.",
          "Trusted: specmodel.ScanTags / per-entry set semantics; vrt.MapSeq owning all map ranges.",
          "DESIGN.md §4 C14"),
